@@ -7,7 +7,8 @@ randomised starters/auxiliaries whose draws are scheduler decisions.
 from .. import gen, model
 from ..lib import (build_dataset, build_scheme, build_alg, call, exc_label, alg_label, REFUSALS, jsonable_ranking)
 from .. import sched
-from .common import Discard, run_alg, well_formed, dataset_tags
+from .common import Discard, run_alg, well_formed, dataset_tags, apply_mutation
+from ..lib import canon_rankings
 
 ID = "C14"
 ENVS = ["absent", "present", "broken", "absent", "present"]
@@ -76,7 +77,10 @@ def gen_case(st, tier, env):
         else:
             a = gen.gen_alg(w, env)
         configs.append({"alg": a, "sched": gen.gen_sched(st.schedule)})
-    return {"complete": comp, "incomplete": inc, "scheme": scheme, "configs": configs}
+    case = {"complete": comp, "incomplete": inc, "scheme": scheme, "configs": configs}
+    if k.random() < 0.25:
+        case["second_pass"] = gen.gen_mutation(w)  # edit the incomplete dataset in place, then ask everything again
+    return case
 
 
 def nontrivial(probes):
@@ -84,11 +88,28 @@ def nontrivial(probes):
 
 
 def run_case(case, ctx):
+    _run_pass(case, ctx, None)
+    if case.get("second_pass"):
+        _run_pass(case, ctx, case["second_pass"])
+
+
+def _run_pass(case, ctx, mutation):
     mc = model.normalise(case["complete"]["rankings"])
     mi = model.normalise(case["incomplete"]["rankings"])
     dc = build_dataset(case["complete"])
     di = build_dataset(case["incomplete"])
     sc = build_scheme(case["scheme"])
+    if mutation is not None:
+        # first touch both datasets the way a user would (aggregate once), then edit in place: what the first
+        # aggregation may have cached must not survive the edit
+        warm = build_scheme(gen.preset("unifying", 1.0))
+        for d0 in (dc, di):
+            run_alg({"alg": "BordaCount"}, d0, warm, None, None)
+            run_alg({"alg": "CopelandMethod"}, d0, warm, None, None)
+            apply_mutation(d0, mutation)
+        mc, mi = canon_rankings(dc.rankings), canon_rankings(di.rankings)
+        ctx.probe("second_pass_after_mutation")
+        ctx.event("mutate", mutation["mutate"], model.canon(mc), model.canon(mi))
     inc_is_incomplete = not model.is_complete(mi)
     comp_is_complete = model.is_complete(mc)
     ctx.event("world", model.canon(mc), model.canon(mi), case["scheme"]["B"], case["scheme"]["T"], ctx.env)
